@@ -12,6 +12,8 @@ VARIANTS = {
 A_ALPHABET = "only cases built from the listed alphabets up to the listed bounds are covered (small-scope claim)"
 A_OVERLAY = "harness is compiled into the package under test through go test -overlay from the current /repo working tree"
 
+NOT_APPLICABLE = {}
+
 PROPS = {
     "C05": dict(
         variant="plain", files=["zzv_c05_test.go"], test="TestVerif_C05",
